@@ -1008,6 +1008,10 @@ def exec_for(ctx, fr, path, st):
     if after is not None:
         keep = live_in_names(st.body) | after
         names = {n for n in names if n in keep}
+    from .stmt import loop_spec_for, exec_for_with_invariant
+    spec = loop_spec_for(ctx, fr, st)
+    if spec is not None:
+        return exec_for_with_invariant(ctx, fr, path, st, spec)
     for p, src in iter_source(ctx, fr, path, st.iter):
         def bind(q, el, st=st):
             return list(assign_to(ctx, fr, q, st.target, el))
@@ -1235,6 +1239,47 @@ def fold_any_all(ctx, fr, path, name, arg, node):
 
 def builtin_next(ctx, fr, path, node):
     args = node.args
+    if len(args) == 2 and isinstance(args[0], ast.GeneratorExp) and len(args[0].generators) == 1 and not node.keywords:
+        # next((elt for x in xs if c), default): the element of the first iteration that passes the filters
+        from .stmt import assign_to
+        gen = args[0]
+        g = gen.generators[0]
+        RES = f"#next{id(node) % 100000}"
+        for p0, dv in ev(ctx, fr, path, args[1]):
+            for p, src in iter_source(ctx, fr, p0, g.iter):
+                saved = dict(p.env)
+                p.env[RES] = ctx.toV(dv) if not isinstance(dv, Val) else dv
+
+                def bind(r, el, g=g):
+                    return list(assign_to(ctx, fr, r, g.target, el))
+
+                def run(r, g=g, gen=gen):
+                    res = []
+
+                    def conds(r2, i):
+                        if i == len(g.ifs):
+                            for r3, v in ev(ctx, fr, r2, gen.elt):
+                                r3.env[RES] = v
+                                res.append((r3, Outcome("break")))
+                            return
+                        for r3, c in ev(ctx, fr, r2, g.ifs[i]):
+                            for r4, tv in ctx.branch(r3, ctx.truthy(r3, c), "next.if"):
+                                if tv:
+                                    conds(r4, i + 1)
+                                else:
+                                    res.append((r4, Outcome("fall")))
+                    conds(r, 0)
+                    return res
+                body = LoopBody(bind, run, {RES}, f"{node.lineno}")
+                for q, o in run_loop(ctx, fr, p, src, body):
+                    v = q.env.pop(RES)
+                    for n in _target_names(g.target):
+                        if n in saved:
+                            q.env[n] = saved[n]
+                        else:
+                            q.env.pop(n, None)
+                    yield q, v
+        return
     for p, it in ev(ctx, fr, path, args[0]):
         from .contracts import generator_next
         yield from generator_next(ctx, fr, p, it, node)
